@@ -567,6 +567,59 @@ def run(ctx):
         texts = good[:at] + [bad] + good[at:]
         call(case_one_malformed_row, (kind, texts, at))
 
+    # ---- F1d. numbers in typed VCF INFO keys: under row selections of the INFO table, after a file that declared the same ids with other types, and positions written twice --------
+    def case_vcf_numbers(seed_):
+        from bionumpy.datatypes import VCFEntry
+        r_ = random.Random(seed_)
+        n_ = r_.randint(3, 7)
+        dp = [r_.choice([0, 7, 10 ** 9, 2 ** 53 + 1, 9007199254740993, 2 ** 62 + 1, r_.randint(0, 10 ** 12)]) for _ in range(n_)]
+        af = [r_.choice([0.5, 0.001, 0.125, 1e-5, 0.25]) for _ in range(n_)]
+        def vcf_text(dp_type, dp_vals):
+            hdr = "##fileformat=VCFv4.2\n##INFO=<ID=DP,Number=1,Type=%s,Description=\"d\">\n##INFO=<ID=AF,Number=1,Type=Float,Description=\"a\">\n#CHROM\tPOS\tID\tREF\tALT\tQUAL\tFILTER\tINFO\n" % dp_type
+            return hdr + "".join("chr1\t%d\t.\tA\tC\t.\tPASS\tDP=%s;AF=%r\n" % (10 + i, v, a) for i, (v, a) in enumerate(zip(dp_vals, af)))
+        if r_.random() < 0.5:
+            # earlier in the process: the same ids declared with another type
+            p0 = ctx.path("n0.vcf")
+            with open(p0, "w") as f:
+                f.write(vcf_text("Float", [0.5 + i for i in range(n_)]))
+            t0 = bnp.open(p0).read()
+            np.asarray(t0.info.DP)
+            ctx.count("vcf_same_ids_other_types_before")
+        p1 = ctx.path("n1.vcf")
+        with open(p1, "w") as f:
+            f.write(vcf_text("Integer", dp))
+        t = bnp.open(p1).read()
+        info = t.info
+        order = r_.sample(range(n_), n_) if r_.random() < 0.6 else list(range(n_))[::-1]
+        sub = r_.sample(range(n_), 2)
+        for what, idx in (("file-order", list(range(n_))), ("permuted", order), ("sub-selection", sub)):
+            if what != "file-order" and r_.random() < 0.6:
+                # a selection of rows taken before any number of the file was parsed
+                fresh = bnp.open(p1).read()
+                sel = fresh.info[np.array(idx)] if r_.random() < 0.5 else fresh[np.array(idx)].info
+                what += ":before-first-parse"
+            else:
+                sel = info if what == "file-order" else info[np.array(idx)]
+            got_dp = np.asarray(sel.DP).tolist()
+            got_af = np.asarray(sel.AF).tolist()
+            ctx.check("file-int-column", got_dp == [dp[i] for i in idx] and np.asarray(sel.DP).dtype.kind in "iu", "file/vcf-info-integer:%s" % what, "INFO DP of rows %r reads %r, the file says %r" % (idx, got_dp, [dp[i] for i in idx]), {"dp": dp, "rows": idx, "got": [str(x) for x in got_dp]}, (tuple(dp), tuple(idx), "dp"))
+            ctx.check("file-float-column", len(got_af) == len(idx) and all(ulps(a_, af[i]) <= 4 for a_, i in zip(got_af, idx)), "file/vcf-info-float:%s" % what, "INFO AF of rows %r reads %r, the file says %r" % (idx, got_af, [af[i] for i in idx]), {"af": af, "rows": idx, "got": got_af}, (tuple(af), tuple(idx), "af"))
+        # positions of a table built in memory, written twice: the same text both times, and the table keeps its numbers
+        pos = [r_.choice([0, 9, 99, 10 ** 9, 2 ** 62, r_.randint(0, 10 ** 6)]) for _ in range(n_)]
+        tv = VCFEntry(["c"] * n_, np.array(pos, dtype=np.int64), ["."] * n_, ["A"] * n_, ["C"] * n_, ["."] * n_, ["PASS"] * n_, ["."] * n_)
+        outs = []
+        for k_ in range(2):
+            po = ctx.path("nw%d.vcf" % k_)
+            with bnp.open(po, "w") as f:
+                f.write(tv)
+            outs.append([l.split("\t")[1] for l in open(po).read().split("\n") if l and not l.startswith("#")])
+        ctx.check("file-int-column", outs[0] == [str(p_ + 1) for p_ in pos] and outs[1] == outs[0] and np.asarray(tv.position).tolist() == pos, "file/vcf-position-write:written-twice", "POS written %r then %r for positions %r (table afterwards %r)" % (outs[0][:4], outs[1][:4], pos[:4], np.asarray(tv.position).tolist()[:4]),
+                  {"positions": pos, "first": outs[0], "second": outs[1]}, (tuple(pos), "w2"))
+        ctx.count("vcf_number_cases")
+
+    for i in range(ctx.share(ctx.pick(160, 3000))):
+        call(case_vcf_numbers, ctx.seed * 977 + ctx.shard * 131 + i)
+
     # ---- F2. missing-value parsers: '.' and '' are missing, everything else is the number --------------------------------
     def case_missing(texts):
         import math
